@@ -638,7 +638,7 @@ func checkHistory(ops []histOp) (porcupine.CheckResult, string) {
 	}
 	for _, o := range ops {
 		if strings.HasPrefix(o.obs, "panic:") {
-			return porcupine.Illegal, "panic:" + opNames[o.c.Op]
+			return porcupine.Illegal, "panic:" + opNames[o.c.Op] + "|" + o.c.String() + " " + o.obs
 		}
 	}
 	r := porcupine.CheckOperationsTimeout(model, h, 5*time.Second)
@@ -659,6 +659,10 @@ func describeHistory(ops []histOp) string {
 func seqCheck(seq []Call, nf int) *failure {
 	e, obs := runSeq(seq)
 	s, want := runSpec(seq)
+	seq = append([]Call{}, seq...)
+	for i := range seq {
+		seq[i].Tok = i + 1
+	}
 	for i := range seq {
 		if strings.HasPrefix(obs[i], "panic:") {
 			return &failure{Kind: "fail", Key: "panic:" + opNames[seq[i].Op], What: obs[i], Case: Case{Mode: "seq", Seq: seq[:i+1]}}
@@ -902,7 +906,11 @@ func oracle(args []string) {
 					unknown++
 				}
 				if res == porcupine.Illegal {
-					report(&failure{Kind: "fail", Key: key, What: "no sequential order of the completed operations explains the results: " + describeHistory(ops), Case: cs})
+					what := "no sequential order of the completed operations explains the results: "
+					if k := strings.IndexByte(key, '|'); k >= 0 {
+						key, what = key[:k], key[k+1:]+" in history: "
+					}
+					report(&failure{Kind: "fail", Key: key, What: what + describeHistory(ops), Case: cs})
 					break
 				}
 			}
@@ -993,6 +1001,9 @@ func replay(args []string) {
 		for i := 0; i < 5000 && f == nil; i++ {
 			ops, _ := runHistory(cs)
 			if res, key := checkHistory(ops); res == porcupine.Illegal {
+				if k := strings.IndexByte(key, '|'); k >= 0 {
+					key = key[:k]
+				}
 				f = &failure{Kind: "fail", Key: key, What: describeHistory(ops), Case: cs}
 			}
 		}
